@@ -19,12 +19,22 @@ def top_stmt_in(body: List[ast.stmt], node: ast.AST) -> Optional[int]:
 
 
 def has_escape(stmts: Iterable[ast.stmt]) -> bool:
-    """Any continue/break/return/raise (at any depth, not inside nested defs) in the statements."""
-    for st in stmts:
-        for x in walk_no_nested(st):
-            if isinstance(x, (ast.Continue, ast.Break, ast.Return, ast.Raise)):
+    """Can control leave the statement list early?  return/raise anywhere (not in nested defs); continue/break only
+    when they are not captured by a loop nested inside the list."""
+    def visit(node: ast.AST, in_loop: bool) -> bool:
+        if isinstance(node, (ast.Return, ast.Raise)):
+            return True
+        if isinstance(node, (ast.Continue, ast.Break)):
+            return not in_loop
+        if isinstance(node, (ast.FunctionDef, ast.AsyncFunctionDef, ast.ClassDef, ast.Lambda)):
+            return False
+        is_loop = isinstance(node, (ast.For, ast.While))
+        body_ids = {id(x) for x in (node.body if is_loop else [])}
+        for ch in ast.iter_child_nodes(node):
+            if visit(ch, True if id(ch) in body_ids else in_loop):
                 return True
-    return False
+        return False
+    return any(visit(st, False) for st in stmts)
 
 
 def follows_unconditionally(body: List[ast.stmt], first: ast.AST, second: ast.AST) -> bool:
